@@ -5,7 +5,7 @@ from vcommon import *
 import gen, pair_k, t_gen, t_rad
 
 PID = "C09"
-LEVEL = "translation_validation"
+LEVEL = "proof"
 
 
 def validate(root, tmp, tag, maxl):
@@ -26,6 +26,45 @@ def validate(root, tmp, tag, maxl):
     return d, [l for l in out.splitlines() if l.startswith("BAD")], [l for l in out.splitlines() if l.startswith("NOTE")], kv
 
 
+OBL = """(* written by checks/c09.py on every run *)
+From Coq Require Import List ZArith QArith.
+From LV Require Import GenCode.GenModel gen.Generated%(tag)s.
+Theorem generated_ok_now%(tag)s : config_ok classes = true /\\ unparsed_lines = 0%%nat.
+Proof. split; vm_compute; reflexivity. Qed.
+Print Assumptions generated_ok_now%(tag)s.
+"""
+PROBE = """From Coq Require Import List ZArith QArith.
+From LV Require Import GenCode.GenModel gen.Generated%(tag)s.
+Set Printing Depth 100000. Set Printing Width 100000.
+Eval vm_compute in config_diag classes.
+Eval vm_compute in unparsed_lines.
+"""
+
+
+def coq_obligation(res, d, tag):
+    """gen/Generated<tag>.v from the parsed generator output, then the theorem config_ok classes = true (vm_compute).
+    Returns (ok, diagnostics)."""
+    gv = os.path.join(COQ, "gen", "Generated%s.v" % tag)
+    unrolled = t_gen.render_coq(d, gv)
+    open(os.path.join(COQ, "gen", "Obl_C09%s.v" % tag), "w").write(OBL % {"tag": tag})
+    coq_make(["GenCode/GenProofs.vo"])
+    rc1, o1 = coqc("gen/Generated%s.v" % tag)
+    rc2, o2 = coqc("gen/Obl_C09%s.v" % tag, timeout=1800) if rc1 == 0 else (1, o1)
+    res.cov["obligations"] = res.cov.get("obligations", 0) + 1
+    res.cov.setdefault("regenerated_obligations", []).append("gen/Obl_C09%s.v generated_ok_now%s over %d unrolled classes / %d lines" % (tag, tag, len(unrolled), sum(len(d["classes"][k]["terms"]) for k in unrolled)))
+    if rc2 == 0:
+        res.cov["discharged"] = res.cov.get("discharged", 0) + 1
+        return True, []
+    diag = []
+    if rc1 == 0:
+        open(os.path.join(COQ, "gen", "Probe_C09%s.v" % tag), "w").write(PROBE % {"tag": tag})
+        rc3, o3 = coqc("gen/Probe_C09%s.v" % tag, timeout=1800)
+        diag = [o3[-3000:]]
+    else:
+        diag = [o1[-1500:]]
+    return False, diag
+
+
 def run(tier, replay=None):
     res = Result(PID, tier, LEVEL)
     res.cov["rule"] = ("programs = generated classes Q(LA,LB,lambda) of each configuration (MAX_UNROL in {1,0} at MAX_L=5; thorough adds MAX_L=4,3). Each generated "
@@ -36,9 +75,16 @@ def run(tier, replay=None):
                        "shell-pair blocks of the classes both can compute are compared at 1e-11 x max")
     root = build_lib("rel"); root0 = build_lib("rel_u0")
     tmp = scratch_dir()
+    os.makedirs(os.path.join(COQ, "gen"), exist_ok=True)
+    proofs_ok = coq_properties(res, PID)
+    obl_failed = []
     try:
         d1, bad1, notes1, kv1 = validate(root, tmp, "u1", 5)
         d0, bad0, notes0, kv0 = validate(root0, tmp, "u0", 5)
+        for tag, dd in (("", d1), ("_u0", d0)):
+            ok_, diag_ = coq_obligation(res, dd, tag)
+            if not ok_:
+                obl_failed.append((tag or "_u1", diag_))
         progs = int(kv1["classes"]) + int(kv0["classes"])
         bads = [("MAX_UNROL=1", b) for b in bad1] + [("MAX_UNROL=0", b) for b in bad0]
         # same triple lists in both configurations
@@ -49,6 +95,9 @@ def run(tier, replay=None):
             for var, ml in (("rel_l4", 4), ("rel_l3", 3)):
                 r = build_lib(var)
                 dx, badx, notesx, kvx = validate(r, tmp, var, ml)
+                ok_, diag_ = coq_obligation(res, dx, "_" + var)
+                if not ok_:
+                    obl_failed.append((var, diag_))
                 progs += int(kvx["classes"]); bads += [(var, b) for b in badx]
                 for k in dx["classes"]:
                     if k in d1["classes"] and (dx["classes"][k]["A"], dx["classes"][k]["B"]) != (d1["classes"][k]["A"], d1["classes"][k]["B"]):
@@ -59,8 +108,9 @@ def run(tier, replay=None):
         # ---- two real builds, identical driver
         rng = SplitMix(seed() * 1000 + 9)
         cases = []
-        cls = [(a, b, l) for a in range(0, 3) for b in range(0, 3) for l in range(0, 4)]
+        cls = [(a, b, l) for a in range(0, 3) for b in range(0, 3) for l in range(0, 6)]
         if tier == "quick":
+            # every s/p class at every lambda (whatever the unrolling predicate selects is among them), a few d classes
             cls = [c for c in cls if c[0] <= 1 and c[1] <= 1] + [(2, 1, 1), (1, 2, 2), (2, 2, 1)]
         # strata: ordinary geometry; the same with all coefficients scaled down (the property is relative to the block's own
         # largest element and the integrals are linear in the coefficients, so an absolute cut-off inside one translation shows
@@ -129,11 +179,30 @@ def run(tier, replay=None):
             m = re.match(r"Q\((\d+),(\d+),(\d+)\)", cls_)
             res.violation("gen-%d" % len(seen), {"theorem_or_correspondence": "generated class = generic contraction with exact angular factors (translation validation)",
                                                  "input": {"configuration": cfg, "class": cls_}, "observed": [x for c_, x in bads if x.split()[1] == cls_][:8], "n_findings": len(bads)})
+        if not proofs_ok:
+            proof_broken(res, PID, "Properties_C09.v")
+        for cfg, diag_ in obl_failed:
+            # the obligation over the regenerated lines no longer checks; a concrete failing input is a two-build difference
+            # in one of the classes the diagnostics name (found above if any), otherwise none was found
+            txt = " ".join(diag_)
+            named = sorted(set(re.findall(r"\((\d+), (\d+), (\d+),\s*\[", txt.replace("%nat", ""))))
+            hit = [(c, dv, sc) for (c, dv, sc) in diffs if any(("_%s%s%s_" % k) in c["id"] for k in named)]
+            payload = {"theorem_or_correspondence": "gen/Obl_C09%s.v: config_ok classes = true (every generated line carries the exact coefficient, none missing, none duplicated)" % ("" if cfg == "_u1" else cfg),
+                       "failing_classes": ["Q(%s,%s,%s)" % k for k in named], "diagnostics (na, nb, mui, code, key)": diag_}
+            if hit:
+                c, dv, sc = hit[0]
+                payload.update({"input": c, "observed": "two builds differ by %.3e on a block of scale %.3e" % (dv, sc)})
+                res.violation("obligation%s" % cfg, payload)
+            else:
+                res.violation("obligation%s" % cfg, payload, no_input=True)
         for c, dv, sc in diffs[:2]:
             res.violation("build-" + c["id"], {"theorem_or_correspondence": "two builds of the same tree agree to 1e-11 x max|block|", "input": c,
                                                "observed": "max difference %.3e on a block of scale %.3e (MAX_UNROL=1 vs MAX_UNROL=0)" % (dv, sc), "n": len(diffs)})
     finally:
         shutil.rmtree(tmp, ignore_errors=True)
+    res.cov["explanation"] = ("Coq: Properties_C09.v (a class that passes the rational checker computes rolled_up up to eps*sum|terms| + delta*extras, for all leaves) "
+                              "and the per-run theorem generated_ok_now over the lines the generator built from this tree emitted; OCaml (extracted exact model): triple lists, "
+                              "dims, nbase, QGEN table; two real builds compared on sampled inputs")
     res.assumptions += ["translators/t_gen.py parses the generated sources (term grammar; unparsed lines are reported)",
                         "exact-rational angular model for the unrolled coefficients; the implementation's own Omega table (verified entry by entry by C13) for the sparsity pattern of the large classes",
                         "MAX_UNROL >= 2 is not built (20 MB translation units)"]
